@@ -29,150 +29,7 @@ func runC07(c *Ctx) {
 		return cc != nil && calleeName(cc) == "Close"
 	}
 
-	// ---------- R1 / R2 per receive loop ----------
-	for _, name := range []string{"(*Server).Serve", "(*RequestServer).serveLoop"} {
-		fn := p.Func(name)
-		if fn == nil {
-			c.missing("R1", name)
-			continue
-		}
-		c.looked(name)
-		mks := callsWhere(fn, func(cc *ssa.CallCommon) bool { return calleeName(cc) == "makePacket" })
-		if len(mks) != 1 {
-			c.und("R1", name+" makePacket", p.Pos(fn.Pos()), fmt.Sprintf("%d makePacket calls", len(mks)))
-			continue
-		}
-		mk := mks[0].(*ssa.Call)
-		var errEx *ssa.Extract
-		for _, r := range *mk.Referrers() {
-			if ex, ok := r.(*ssa.Extract); ok && ex.Index == 1 {
-				errEx = ex
-			}
-		}
-		if errEx == nil {
-			c.bad("R1", name+" examines the decoding error", pos(mk), "the error of makePacket is ignored: every malformed packet is dispatched")
-			continue
-		}
-		// the "bad packet" region: err != nil and not the unknown-extension sentinel
-		var bad *ssa.BasicBlock
-		var errNonNil *ssa.BasicBlock
-		// err may pass through a local variable: collect values equal to errEx
-		vals := map[ssa.Value]bool{errEx: true}
-		if cell := storeCellOf(fn, errEx); cell != nil {
-			eachInstr(fn, func(in ssa.Instruction) {
-				if u, ok := in.(*ssa.UnOp); ok && u.Op == token.MUL && u.X == cell && dominates(mk, in) {
-					// loads after the call and before the next iteration's store
-					vals[u] = true
-				}
-			})
-		}
-		for v := range vals {
-			refs := v.Referrers()
-			if refs == nil {
-				continue
-			}
-			for _, r := range *refs {
-				if b, ok := r.(*ssa.BinOp); ok && (b.Op == token.NEQ || b.Op == token.EQL) && (isNilConst(b.Y) || isNilConst(b.X)) {
-					for _, nt := range nilTests(v) {
-						errNonNil = nt.nonNil
-					}
-				}
-				if call, ok := r.(*ssa.Call); ok && callIs(&call.Call, "errors.Is") && call.Call.Args[0] == v {
-					for _, rr := range *call.Referrers() {
-						if iff, ok := rr.(*ssa.If); ok {
-							bad = iff.Block().Succs[1]
-						}
-						if u, ok := rr.(*ssa.UnOp); ok && u.Op == token.NOT {
-							for _, r3 := range *u.Referrers() {
-								if iff, ok := r3.(*ssa.If); ok {
-									bad = iff.Block().Succs[0]
-								}
-							}
-						}
-					}
-				}
-			}
-		}
-		if bad == nil {
-			bad = errNonNil // no special case for unknown extensions: every error is "bad"
-		}
-		if bad == nil {
-			c.bad("R1", name+" examines the decoding error", pos(mk), "no branch on makePacket's error: a packet that failed to decode is dispatched")
-			continue
-		}
-		// what the bad-packet branch knows: the error it was entered on is not nil
-		seed := func() {
-			if errNonNil != nil && (errNonNil == bad || errNonNil.Dominates(bad)) {
-				f := pathFacts{}
-				for v := range vals {
-					f[v] = clsNonNil
-				}
-				seedFacts = f
-			}
-		}
-		seed()
-		dispatched := reachFromBlock(bad, isSend, nil)
-		c.check(!dispatched, "R1", name+" never dispatches a packet that failed to decode", p.Pos(bad.Instrs[0].Pos()),
-			"the bad-packet branch leaves the receive loop without handing the packet on", "after makePacket failed the packet can still be sent to the dispatcher: a truncated request is acted upon, an unknown type byte dispatches a nil packet")
-		seed()
-		noClose := reachFromBlock(bad, func(in ssa.Instruction) bool {
-			return isReturn(in) || (isSend(in))
-		}, isClose)
-		// for Serve the path continues after the loop to the sweep and return: Close must come before
-		c.check(!noClose, "R2", name+" closes the connection on a bad packet", p.Pos(bad.Instrs[0].Pos()), "conn.Close() on the bad-packet path", "a malformed packet does not close the connection")
-		// the error reaches Serve's caller
-		if name == "(*RequestServer).serveLoop" {
-			retErr := false
-			for _, b := range fn.Blocks {
-				if bad == b || bad.Dominates(b) {
-					for _, in := range b.Instrs {
-						if r, ok := in.(*ssa.Return); ok && !isNilConst(r.Results[0]) {
-							retErr = true
-						}
-						if st, ok := in.(*ssa.Store); ok && vals[st.Val] {
-							retErr = true
-						}
-					}
-				}
-			}
-			if !retErr {
-				// the return may lie behind a join (the receive step inlined back from a helper): every return that
-				// the bad-packet branch can reach gives a non-nil error, and it cannot reach the next receive
-				seed()
-				retErr = !reachFromBlock(bad, func(in ssa.Instruction) bool {
-					if r, ok := in.(*ssa.Return); ok && len(r.Results) > 0 {
-						cls, _ := classify(r.Results[0], reachEnv, 0)
-						return cls != clsNonNil
-					}
-					cc := callOf(in)
-					return cc != nil && cc.StaticCallee() != nil && cc.StaticCallee() == mk.Call.StaticCallee()
-				}, nil)
-			}
-			c.check(retErr, "R2", name+" reports the decoding error", p.Pos(bad.Instrs[0].Pos()), "returns the error", "the decoding error is not returned")
-		} else {
-			// Server.Serve returns the err variable; on the bad path nothing overwrites it with nil
-			var ret *ssa.Return
-			eachInstr(fn, func(in ssa.Instruction) {
-				if r, ok := in.(*ssa.Return); ok && isReturn(in) {
-					ret = r
-				}
-			})
-			okRet := false
-			if ret != nil {
-				for _, l := range leavesOf(ret.Results[0]) {
-					if l.Kind == leafCallResult && l.CallIn == ssa.Instruction(mk) && l.Idx == 1 {
-						okRet = true
-					}
-				}
-			}
-			seed()
-			nilStore := reachFromBlock(bad, func(in ssa.Instruction) bool {
-				st, ok := in.(*ssa.Store)
-				return ok && isNilConst(st.Val) && typeName(st.Val.Type()) == "error"
-			}, nil)
-			c.check(okRet && !nilStore, "R2", name+" reports the decoding error", p.Pos(bad.Instrs[0].Pos()), "Serve returns makePacket's error", "Serve returns nil although it stopped because of a malformed packet")
-		}
-	}
+	checkBadPacketEndsSession(c)
 	// makePacket: a nil packet only together with a non-nil error
 	if mk := p.Func("makePacket"); mk == nil {
 		c.missing("R1", "makePacket")
@@ -474,6 +331,11 @@ func runC07(c *Ctx) {
 	// R10: oversized and empty frames are refused before the body is read, with and without the allocator (shared with C08.O3)
 	c.withRule("R10", func() { checkFrameLimits(c, newZWorld(p)) })
 	checkDecodeErrorsNotOverwritten(c, "R12")
+	checkMakePacketTable(c, "R14")
+	// R15 (shared with C18.R8): a length field larger than the bytes received must be refused — a decoder that measures
+	// against the capacity accepts it when the frame lies in a recycled page, and the request is acted upon with stale bytes
+	checkNoSliceExtension(c, "R15")
+	checkSpecificPacketGuarded(c, "R16")
 	// R13 (shared with C02.R0): a well-formed request of every type makePacket can build lands in a case of the os
 	// server's dispatcher that answers it; the default arm returns an error, which ends the command worker without a
 	// reply — with more requests in the stream Serve then waits for a worker that is gone
@@ -998,4 +860,338 @@ func checkDecodeErrorsNotOverwritten(c *Ctx, rule string) {
 		}
 	}
 	c.check(n >= 25, rule, "safe decode calls", "?", fmt.Sprintf("%d calls", n), fmt.Sprintf("only %d unmarshal…Safe calls found in package sftp", n))
+}
+
+// makePacketOracle: SFTP v3 request type bytes (draft-ietf-secsh-filexfer-02 section 3) and the packet type that decodes each.
+var makePacketOracle = map[int64]string{
+	1: "sshFxInitPacket", 3: "sshFxpOpenPacket", 4: "sshFxpClosePacket", 5: "sshFxpReadPacket", 6: "sshFxpWritePacket",
+	7: "sshFxpLstatPacket", 8: "sshFxpFstatPacket", 9: "sshFxpSetstatPacket", 10: "sshFxpFsetstatPacket",
+	11: "sshFxpOpendirPacket", 12: "sshFxpReaddirPacket", 13: "sshFxpRemovePacket", 14: "sshFxpMkdirPacket",
+	15: "sshFxpRmdirPacket", 16: "sshFxpRealpathPacket", 17: "sshFxpStatPacket", 18: "sshFxpRenamePacket",
+	19: "sshFxpReadlinkPacket", 20: "sshFxpSymlinkPacket", 200: "sshFxpExtendedPacket",
+}
+
+// checkMakePacketTable (C07.R14): makePacket is run by the interpreter for every type byte 0..255, up to the call of
+// the chosen packet's UnmarshalBinary.  A request byte must pick its own packet type; every other byte must pick none
+// (the run returns without decoding anything): a reply type byte or an undefined one decoded as some request is acted
+// upon by the workers instead of ending the session.  Independent of how the table is written (switch, map, slice of
+// constructors).
+func checkMakePacketTable(c *Ctx, rule string) {
+	p := c.P
+	mk := p.Func("makePacket")
+	if mk == nil {
+		c.missing(rule, "makePacket")
+		return
+	}
+	if len(mk.Params) != 1 {
+		c.und(rule, "makePacket table", p.Pos(mk.Pos()), "makePacket no longer takes the received packet as its one argument")
+		return
+	}
+	st, ok := mk.Params[0].Type().Underlying().(*types.Struct)
+	if !ok {
+		c.und(rule, "makePacket table", p.Pos(mk.Pos()), "the argument of makePacket is not a struct")
+		return
+	}
+	typeField := ""
+	var typeT types.Type
+	for i := 0; i < st.NumFields(); i++ {
+		if b, ok := st.Field(i).Type().Underlying().(*types.Basic); ok && b.Kind() == types.Uint8 {
+			typeField, typeT = st.Field(i).Name(), st.Field(i).Type()
+		}
+	}
+	if typeField == "" {
+		c.und(rule, "makePacket table", p.Pos(mk.Pos()), "no type byte field in makePacket's argument")
+		return
+	}
+	bad, und := 0, 0
+	for k := int64(0); k < 256; k++ {
+		ev := newEvaluator(p)
+		ev.intercept = func(call *ssa.CallCommon, args []evVal) bool {
+			return call.IsInvoke() && call.Method.Name() == "UnmarshalBinary"
+		}
+		arg := evVal{k: evObject, obj: &evObj{typ: mk.Params[0].Type(), fields: map[string]evVal{typeField: evInt(k, typeT)}}}
+		res := ev.run(mk, []evVal{arg}, 0)
+		got := ""
+		switch res.kind {
+		case "intercept":
+			if len(res.vals) > 0 && res.vals[0].k == evIface && res.vals[0].t != nil {
+				got = typeName(res.vals[0].t)
+			} else {
+				und++
+				c.und(rule, fmt.Sprintf("makePacket(type %d)", k), p.Pos(mk.Pos()), "the packet whose UnmarshalBinary is called is not known")
+				continue
+			}
+		case "return":
+		default:
+			und++
+			c.und(rule, fmt.Sprintf("makePacket(type %d)", k), p.Pos(mk.Pos()), "makePacket cannot be run for this type byte: "+res.why)
+			continue
+		}
+		want := makePacketOracle[k]
+		if got != want {
+			bad++
+			switch {
+			case want == "":
+				c.bad(rule, fmt.Sprintf("makePacket(type %d)", k), p.Pos(mk.Pos()), fmt.Sprintf("type byte %d is not a request of SFTP v3 but makePacket decodes it as a %s: the packet is acted upon instead of ending the session", k, got))
+			case got == "":
+				c.bad(rule, fmt.Sprintf("makePacket(type %d)", k), p.Pos(mk.Pos()), fmt.Sprintf("type byte %d (%s) is not decoded by makePacket: a well-formed request ends the session", k, want))
+			default:
+				c.bad(rule, fmt.Sprintf("makePacket(type %d)", k), p.Pos(mk.Pos()), fmt.Sprintf("type byte %d is decoded as a %s, it is a %s", k, got, want))
+			}
+		}
+	}
+	if bad == 0 && und == 0 {
+		c.ok(rule, "makePacket table", p.Pos(mk.Pos()), "256 type bytes: the 20 request types pick their own packet, every other byte picks none")
+	}
+}
+
+// checkSpecificPacketGuarded (C07.R16, shared as C19.R12): an EXTENDED request whose name no decoder knows arrives with a
+// nil SpecificPacket (makePacket passes it on for the workers to answer with "operation unsupported").  Every place
+// that calls a method of the specific packet, or lets it stand in for the request, does so behind a test that it is
+// not nil: otherwise one unknown extension name panics a worker and takes the server down.
+func checkSpecificPacketGuarded(c *Ctx, rule string) {
+	p := c.P
+	n := 0
+	for _, fn := range p.LibFuncs() {
+		if outermost(fn).Package() != p.Sftp {
+			continue
+		}
+		storesIt := false
+		var loads []*ssa.UnOp
+		eachInstr(fn, func(in ssa.Instruction) {
+			switch x := in.(type) {
+			case *ssa.Store:
+				if _, name, _, ok := fieldOf(x.Addr); ok && name == "SpecificPacket" {
+					storesIt = true
+				}
+			case *ssa.UnOp:
+				if x.Op == token.MUL {
+					if _, name, _, ok := fieldOf(x.X); ok && name == "SpecificPacket" {
+						loads = append(loads, x)
+					}
+				}
+			}
+		})
+		if storesIt || len(loads) == 0 {
+			continue // the decoder itself: it calls the packet it has just stored
+		}
+		baseOf := func(u *ssa.UnOp) ssa.Value {
+			if fa, ok := u.X.(*ssa.FieldAddr); ok {
+				return fa.X
+			}
+			return nil
+		}
+		guarded := func(u *ssa.UnOp, at ssa.Instruction) bool {
+			for _, u2 := range loads {
+				if baseOf(u2) == nil || baseOf(u2) != baseOf(u) {
+					continue
+				}
+				for _, nt := range nilTests(u2) {
+					if nt.nonNil != nil && nt.nonNil != nt.isNil && (nt.nonNil == at.Block() || nt.nonNil.Dominates(at.Block())) && edgeOnly(nt.iff.Block(), nt.nonNil) {
+						return true
+					}
+				}
+			}
+			return false
+		}
+		for _, u := range loads {
+			refs := u.Referrers()
+			if refs == nil {
+				continue
+			}
+			for _, r := range *refs {
+				what := ""
+				switch x := r.(type) {
+				case *ssa.Call:
+					if x.Call.IsInvoke() && x.Call.Value == ssa.Value(u) {
+						what = "a call of its method " + x.Call.Method.Name()
+					}
+				case *ssa.Defer:
+					if x.Call.IsInvoke() && x.Call.Value == ssa.Value(u) {
+						what = "a call of its method " + x.Call.Method.Name()
+					}
+				case *ssa.ChangeInterface:
+					if it, ok := x.Type().Underlying().(*types.Interface); ok && it.NumMethods() > 0 {
+						what = "its use as a " + typeName(x.Type())
+					}
+				case *ssa.TypeAssert:
+					if !x.CommaOk {
+						what = "a type assertion"
+					}
+				}
+				if what == "" {
+					continue
+				}
+				n++
+				c.check(guarded(u, r), rule, "SpecificPacket is not nil at "+what+" in "+fnName(fn), p.Pos(r.Pos()), "behind a test that it is not nil",
+					"the specific packet of an EXTENDED request is used ("+what+") without a test that it is not nil: a request for an extension no decoder knows panics the worker")
+			}
+		}
+	}
+	c.check(n >= 3, rule, "uses of the specific packet", "?", fmt.Sprintf("%d uses", n), fmt.Sprintf("only %d uses of SpecificPacket found (readonly, respond and the request server's worker expected)", n))
+}
+
+// checkBadPacketEndsSession (C07.R1/R2; the R2 part shared as C11.R14): per receive loop, a packet that failed to decode
+// is not dispatched, the connection is closed, and the decoding error is what the loop reports.
+func checkBadPacketEndsSession(c *Ctx) {
+	p := c.P
+	pos := func(in ssa.Instruction) string { return p.Pos(in.Pos()) }
+	isSend := func(in ssa.Instruction) bool { _, ok := in.(*ssa.Send); return ok }
+	isClose := func(in ssa.Instruction) bool {
+		cc := callOf(in)
+		return cc != nil && calleeName(cc) == "Close"
+	}
+	_ = pos
+	// ---------- R1 / R2 per receive loop ----------
+	for _, name := range []string{"(*Server).Serve", "(*RequestServer).serveLoop"} {
+		fn := p.Func(name)
+		if fn == nil {
+			c.missing("R1", name)
+			continue
+		}
+		c.looked(name)
+		mks := callsWhere(fn, func(cc *ssa.CallCommon) bool { return calleeName(cc) == "makePacket" })
+		if len(mks) != 1 {
+			c.und("R1", name+" makePacket", p.Pos(fn.Pos()), fmt.Sprintf("%d makePacket calls", len(mks)))
+			continue
+		}
+		mk := mks[0].(*ssa.Call)
+		var errEx *ssa.Extract
+		for _, r := range *mk.Referrers() {
+			if ex, ok := r.(*ssa.Extract); ok && ex.Index == 1 {
+				errEx = ex
+			}
+		}
+		if errEx == nil {
+			c.bad("R1", name+" examines the decoding error", pos(mk), "the error of makePacket is ignored: every malformed packet is dispatched")
+			continue
+		}
+		// the "bad packet" region: err != nil and not the unknown-extension sentinel
+		var bad *ssa.BasicBlock
+		var errNonNil *ssa.BasicBlock
+		// err may pass through a local variable: collect values equal to errEx
+		vals := map[ssa.Value]bool{errEx: true}
+		if cell := storeCellOf(fn, errEx); cell != nil {
+			eachInstr(fn, func(in ssa.Instruction) {
+				if u, ok := in.(*ssa.UnOp); ok && u.Op == token.MUL && u.X == cell && dominates(mk, in) {
+					// loads after the call and before the next iteration's store
+					vals[u] = true
+				}
+			})
+		}
+		for v := range vals {
+			refs := v.Referrers()
+			if refs == nil {
+				continue
+			}
+			for _, r := range *refs {
+				if b, ok := r.(*ssa.BinOp); ok && (b.Op == token.NEQ || b.Op == token.EQL) && (isNilConst(b.Y) || isNilConst(b.X)) {
+					for _, nt := range nilTests(v) {
+						errNonNil = nt.nonNil
+					}
+				}
+				if call, ok := r.(*ssa.Call); ok && callIs(&call.Call, "errors.Is") && call.Call.Args[0] == v {
+					for _, rr := range *call.Referrers() {
+						if iff, ok := rr.(*ssa.If); ok {
+							bad = iff.Block().Succs[1]
+						}
+						if u, ok := rr.(*ssa.UnOp); ok && u.Op == token.NOT {
+							for _, r3 := range *u.Referrers() {
+								if iff, ok := r3.(*ssa.If); ok {
+									bad = iff.Block().Succs[0]
+								}
+							}
+						}
+					}
+				}
+			}
+		}
+		if bad == nil {
+			bad = errNonNil // no special case for unknown extensions: every error is "bad"
+		}
+		if bad == nil {
+			c.bad("R1", name+" examines the decoding error", pos(mk), "no branch on makePacket's error: a packet that failed to decode is dispatched")
+			continue
+		}
+		// what the bad-packet branch knows: the error it was entered on is not nil
+		seed := func() {
+			if errNonNil != nil && (errNonNil == bad || errNonNil.Dominates(bad)) {
+				f := pathFacts{}
+				for v := range vals {
+					f[v] = clsNonNil
+				}
+				seedFacts = f
+			}
+		}
+		seed()
+		dispatched := reachFromBlock(bad, isSend, nil)
+		c.check(!dispatched, "R1", name+" never dispatches a packet that failed to decode", p.Pos(bad.Instrs[0].Pos()),
+			"the bad-packet branch leaves the receive loop without handing the packet on", "after makePacket failed the packet can still be sent to the dispatcher: a truncated request is acted upon, an unknown type byte dispatches a nil packet")
+		seed()
+		noClose := reachFromBlock(bad, func(in ssa.Instruction) bool {
+			return isReturn(in) || (isSend(in))
+		}, isClose)
+		// for Serve the path continues after the loop to the sweep and return: Close must come before
+		c.check(!noClose, "R2", name+" closes the connection on a bad packet", p.Pos(bad.Instrs[0].Pos()), "conn.Close() on the bad-packet path", "a malformed packet does not close the connection")
+		// the error reaches Serve's caller
+		if name == "(*RequestServer).serveLoop" {
+			retErr := false
+			for _, b := range fn.Blocks {
+				if bad == b || bad.Dominates(b) {
+					for _, in := range b.Instrs {
+						if r, ok := in.(*ssa.Return); ok && !isNilConst(r.Results[0]) {
+							// the decoding error itself (or something wrapped around it), not the result of another call
+							for _, l := range leavesOf(r.Results[0]) {
+								if l.Kind == leafCallResult && l.CallIn == ssa.Instruction(mk) && l.Idx == 1 {
+									retErr = true
+								}
+							}
+							if vals[r.Results[0]] {
+								retErr = true
+							}
+						}
+						if st, ok := in.(*ssa.Store); ok && vals[st.Val] {
+							retErr = true
+						}
+					}
+				}
+			}
+			if !retErr {
+				// the return may lie behind a join (the receive step inlined back from a helper): every return that
+				// the bad-packet branch can reach gives a non-nil error, and it cannot reach the next receive
+				seed()
+				retErr = !reachFromBlock(bad, func(in ssa.Instruction) bool {
+					if r, ok := in.(*ssa.Return); ok && len(r.Results) > 0 {
+						cls, _ := classify(r.Results[0], reachEnv, 0)
+						return cls != clsNonNil
+					}
+					cc := callOf(in)
+					return cc != nil && cc.StaticCallee() != nil && cc.StaticCallee() == mk.Call.StaticCallee()
+				}, nil)
+			}
+			c.check(retErr, "R2", name+" reports the decoding error", p.Pos(bad.Instrs[0].Pos()), "returns the error", "the decoding error is not returned")
+		} else {
+			// Server.Serve returns the err variable; on the bad path nothing overwrites it with nil
+			var ret *ssa.Return
+			eachInstr(fn, func(in ssa.Instruction) {
+				if r, ok := in.(*ssa.Return); ok && isReturn(in) {
+					ret = r
+				}
+			})
+			okRet := false
+			if ret != nil {
+				for _, l := range leavesOf(ret.Results[0]) {
+					if l.Kind == leafCallResult && l.CallIn == ssa.Instruction(mk) && l.Idx == 1 {
+						okRet = true
+					}
+				}
+			}
+			seed()
+			nilStore := reachFromBlock(bad, func(in ssa.Instruction) bool {
+				st, ok := in.(*ssa.Store)
+				return ok && isNilConst(st.Val) && typeName(st.Val.Type()) == "error"
+			}, nil)
+			c.check(okRet && !nilStore, "R2", name+" reports the decoding error", p.Pos(bad.Instrs[0].Pos()), "Serve returns makePacket's error", "Serve returns nil although it stopped because of a malformed packet")
+		}
+	}
 }
